@@ -9,7 +9,7 @@ from symx.core import explore, coverage_certificate, satisfiable, model_value
 from harness import ctrl
 
 PID = 'C07'
-BOUNDS = {'quick': dict(parallel_steps='<=3', levels='<=3', Kmax='<=3', nsweeps='<=2 (small cases)'), 'thorough': dict(parallel_steps='<=4', levels='<=3', Kmax='<=4', nsweeps='<=2')}
+BOUNDS = {'quick': dict(parallel_steps='<=3', levels='<=3', Kmax='<=3', nsweeps='<=2 (small cases)'), 'thorough': dict(parallel_steps='<=4', levels='<=3', Kmax='<=4 (<=3 with 4 steps on several levels)', nsweeps='<=2', split='configurations with steps*Kmax >= 9 are explored in parts: one per feasible prefix of the first 18 decisions')}
 
 
 def describe(rep):
@@ -36,7 +36,7 @@ def describe(rep):
                      'controller_MPI', 'use_iteration_estimator')
 
 
-def tasks(tier, seed):
+def tasks(tier, seed, deepest=True):
     T = []
     if tier == 'quick':
         for NP, NL, K in [(1, 1, 3), (2, 1, 3), (3, 1, 2), (2, 2, 2), (3, 2, 2), (2, 3, 2)]:
@@ -53,7 +53,9 @@ def tasks(tier, seed):
         T.append((2, 1, 2, None, True, False, 1, {'force_done': False, 'force_continue': True, 'fc_until': 1}))
         T.append((2, 2, 2, 'pfasst_burnin', True, True, 1, {'force_done': True, 'force_continue': False}))
     else:
-        for NP, NL, K in [(1, 1, 4), (2, 1, 4), (3, 1, 4), (4, 1, 3), (2, 2, 4), (3, 2, 3), (4, 2, 3), (2, 3, 3), (3, 3, 3), (4, 3, 2), (4, 1, 4)]:
+        for NP, NL, K in [(1, 1, 4), (2, 1, 4), (3, 1, 4), (4, 1, 3), (2, 2, 4), (3, 2, 3), (4, 2, 3), (2, 3, 3), (3, 3, 3), (4, 3, 2)]:
+            if not deepest and NP == 4 and K >= 3:
+                continue  # (the checks of other properties that reuse these explorations leave out the 15000-pattern configurations)
             preds = [None] if NL == 1 else [None, 'fine_only', 'pfasst_burnin']
             for pred in preds:
                 for jac in ([True, False] if NL == 1 and NP > 1 else [True]):
@@ -62,25 +64,66 @@ def tasks(tier, seed):
                             continue
                         for ns in ((1, 2) if NP <= 3 and K <= 3 else (1,)):
                             T.append((NP, NL, K, pred, jac, atd, ns, None))
+        if deepest:
+            T.append((4, 1, 4, None, True, False, 1, None))  # the largest single configuration (about 10^5 convergence patterns)
         for NP, NL in [(2, 1), (3, 1), (2, 2), (3, 2)]:
             T.append((NP, NL, 2, 'pfasst_burnin' if NL > 1 else None, True, False, 1, {'force_done': True, 'force_continue': False}))
             T.append((NP, NL, 2, 'pfasst_burnin' if NL > 1 else None, True, False, 1, {'force_done': False, 'force_continue': True, 'fc_until': 1}))
             T.append((NP, NL, 2, 'pfasst_burnin' if NL > 1 else None, True, True, 1, {'force_done': True, 'force_continue': True, 'fc_until': 0}))
+        # configurations with many convergence patterns are explored in parts (one per feasible prefix of the first 18 decisions)
+        T = split(T, lambda t: t[0] * t[2] >= 9 and t[7] is None, depth=18)
     return T
 
 
+def split(T, big, depth=9):
+    """large configurations are explored in parts, one per feasible prefix of the first `depth` branch decisions (computed here by a depth-limited
+    exploration of the same runs; the parts go to different workers and their regions partition the input space)"""
+    out = []
+    for t in T:
+        if big(t):
+            NP, NL, K, pred, jac, atd, ns, inject = t[:8]
+            for bits in core.frontier(lambda c: ctrl.run_block(c, NP, NL, K, pred, jac, atd, ns, inject), depth):
+                out.append(tuple(t) + (bits,))
+        else:
+            out.append(t)
+    return out
+
+
 def explore_config(rep, task, clauses=None, pid=PID):
-    NP, NL, K, pred, jac, atd, ns, inject = task
+    NP, NL, K, pred, jac, atd, ns, inject = task[:8]
+    prefix = tuple(task[8]) if len(task) > 8 else ()
     name = f'NP{NP}/NL{NL}/K{K}/{pred}/jac{int(jac)}/atd{int(atd)}/ns{ns}/inj{json.dumps(inject) if inject else 0}'
+    if prefix:
+        name += '/part' + ''.join(str(int(b)) for b in prefix)
 
     def fn(c):
         return ctrl.run_block(c, NP, NL, K, pred, jac, atd, ns, inject)
 
-    paths = explore(fn, max_paths=400000)
-    rep.paths += len(paths)
-    rep.decisions += sum(len(p.decisions) for p in paths)
+    paths = explore(fn, max_paths=400000, prefix=prefix)
     mx = z3.Int('maxiter')
     pre = [z3.And(mx >= 0, mx <= K)]
+    if prefix and not paths:
+        rep.extra['empty_parts'] = rep.extra.get('empty_parts', 0) + 1
+        return []
+    if prefix:
+        # the forced decisions are this part's region: they join the precondition of the part (all paths share them; the union of the regions of all
+        # 2^k parts is the whole input space).  A region that is empty (forced decisions contradict each other) carries no claim.
+        plen = min(len(prefix), min(len(p.pc) for p in paths))
+        region = list(paths[0].pc[:plen])
+        r0, _ = satisfiable(pre + [a for p in paths[:1] for a in p.assume] + region, name=f'{name}:region', kind='witness')
+        if r0 == 'unsat':
+            rep.extra['empty_parts'] = rep.extra.get('empty_parts', 0) + 1
+            return []
+        if r0 != 'sat':
+            rep.ob(f'{name}:region', r0)
+            return []
+        # a run that needs fewer decisions than the prefix is explored in several parts; keep it in the part whose remaining bits are all True
+        paths = [p for p in paths if len(p.pc) >= len(prefix) or all(prefix[len(p.pc):])]
+        if not paths:
+            return []
+        pre = pre + region
+    rep.paths += len(paths)
+    rep.decisions += sum(len(p.decisions) for p in paths)
     # all assumptions added during the runs (residuals >= 0) are part of the precondition
     seen = set()
     for p in paths:
